@@ -48,6 +48,14 @@ val lift : lres -> coq_Z -> (ledger -> state outcome) -> state outcome
 val refund_prev :
   auction -> ledger -> coq_Z -> (ledger -> state outcome) -> state outcome
 
+val bid_check :
+  auction -> coq_Z -> coq_Z -> coq_Z -> coq_Z -> ((coq_Z * coq_Z) * coq_Z)
+  outcome
+
+val settle :
+  auction -> ledger -> coq_Z -> coq_Z -> coq_Z -> coq_Z -> coq_Z -> coq_Z ->
+  state outcome
+
 val bid :
   auction -> ledger -> coq_Z -> coq_Z -> coq_Z -> coq_Z -> coq_Z -> coq_Z ->
   state outcome
